@@ -76,7 +76,7 @@ def hArm : Handler := fun args impl => do
         let text ← impl.parse "text" str
         match Spec.parseProgram text.toList with
         | some [st] =>
-          match Spec.decodeStmt FNum.read FNum.zero st with
+          match Spec.decodeStmt FNum.read FNum.zero (Spec.completeStmt st) with
           | some t' =>
             if oTree (Scad.map FNum.val t') ≠ oTree w then
               fails := fails ++ [s!"emitted_call_means_a_different_node:{macroName}!:arm={k}"]
